@@ -199,6 +199,25 @@ def nontrivial(case, impl):
     return None
 
 
+def run(ctx):
+    """Standard flow, preceded by the variant selection of DESIGN.md 2.6: if the known finding panic-pass-gauge no longer
+    reproduces on the tree under test (its replay ends with concurrency 0 instead of -1), the drivers are switched to the
+    repaired variant of the recover path (`fix = true`, the one `accounting_repaired` is about); the correspondence is then run
+    against it and no KNOWN-FINDING line is printed."""
+    import os
+    import sys
+    from vlib import core, std
+    os.environ.pop("VERIF_C01_FIX", None)
+    binary, _ = core.build_harness()
+    if binary is not None:
+        p = os.path.join(core.ROOT, "replays", "known", "C01-panic-pass-gauge.ops")
+        impl, _ = core.run_impl(binary, PROP, open(p).read())
+        if impl and impl[-1].strip() == "read h conc => 0" and any(l.strip() == "read h sum pass => 1" for l in impl):
+            os.environ["VERIF_C01_FIX"] = "1"
+            ctx.log("known finding panic-pass-gauge does not reproduce on this tree: using the repaired model variant")
+    return std.run(ctx, sys.modules[__name__])
+
+
 META = {
     "technique": "Lean 4 proof (simulation invariant between the code-shaped entry lifecycle and the history ledger, on top of the "
                  "leap-array refinement) + differential correspondence model/impl through the public API",
